@@ -34,7 +34,10 @@ RULE = ('C01-grammar scripts (1-3 equations, lags/leads <= 3, parameters, errors
         't in both spellings incl. the infeasible ones, with and without offset (in / out of span), min/max_iter guard, '
         'pre-existing NaN/inf, all error modes, (c) solve() for every start/end choice incl. defaults (model side: the entry-point '
         'model SolveAll.solve_M incl. iter_periods), (d) the Fortran engine (gfortran-compiled) for solve_t at every t in both '
-        'spellings and solve(): oracle on all, K on the calls that end before the compiled loop. thorough adds the '
+        'spellings and solve(): oracle on all, K on the calls that end before the compiled loop. '
+        'Syntax variants of the documented grammar: X[+1], X[ -1 ], { a }, < e >, keyword-prefixed names (is_open, Pin, not_X), '
+        'comments, multi-line parenthesised statements, np.sqrt (oracle only: outside the translated fragment). model.lags / '
+        'model.leads assigned by the user after construction, raised and lowered. thorough adds: '
         'exhaustive space of all programs of <= 2 equations with <= 2 right-hand terms over 4 names and offsets -1..1. '
         'Non-trivial = at least one evaluation pass executed on the real model or an up-front rejection observed; distinct '
         'by hash of the whole case.')
@@ -75,7 +78,7 @@ def _cleanup():
 atexit.register(_cleanup)
 
 ENDO = ['Y', 'C', 'I']
-EXO = ['X', 'G', 'W']
+EXO = ['X', 'G', 'W', 'is_open', 'Pin', 'not_X']      # incl. keyword-prefixed identifiers
 PAR = ['a', 'b']
 ERR = ['e']
 
@@ -89,12 +92,20 @@ class Prog:
         self.eqs = []           # {'lhs': [name, k], 'reads': [[name, k], ...]}
 
 
-def _term(name, k, kind='v'):
-    idx = '' if k == 0 else '[%d]' % k
+def _term(name, k, kind='v', style=None):
+    """style (right-hand sides only): 'plus' writes leads with an explicit sign (X[+1]), 'spaces' puts spaces inside the index
+    brackets, the braces and the angle brackets (X[ -1 ], { a }, < e >) — all inside the documented syntax"""
+    style = style or ()
+    if k == 0:
+        idx = ''
+    else:
+        txt = ('+%d' % k) if (k > 0 and 'plus' in style) else '%d' % k
+        idx = '[ %s ]' % txt if 'spaces' in style else '[%s]' % txt
+    sp = ' ' if 'spaces' in style else ''
     if kind == 'p':
-        return '{%s}%s' % (name, idx)
+        return '{%s%s%s}%s' % (sp, name, sp, idx)
     if kind == 'e':
-        return '<%s>%s' % (name, idx)
+        return '<%s%s%s>%s' % (sp, name, sp, idx)
     return name + idx
 
 
@@ -113,19 +124,19 @@ def gen_expr(rng, depth, ctx):
             elif u < 0.6 and Ld:
                 k = rng.randint(1, Ld)
             ctx['reads'].append([name, k])
-            return _term(name, k)
+            return _term(name, k, 'v', ctx.get('style'))
         if q < 0.74:
             # parameters and errors carry lags / leads too (they count towards LAGS / LEADS like any variable)
             name = rng.choice(PAR)
             u = rng.random()
             k = -rng.randint(1, L) if (L and u < 0.25) else (rng.randint(1, Ld) if (Ld and u < 0.35) else 0)
             ctx['reads'].append([name, k])
-            return _term(name, k, 'p')
+            return _term(name, k, 'p', ctx.get('style'))
         if q < 0.8:
             u = rng.random()
             k = -rng.randint(1, L) if (L and u < 0.25) else (rng.randint(1, Ld) if (Ld and u < 0.35) else 0)
             ctx['reads'].append(['e', k])
-            return _term('e', k, 'e')
+            return _term('e', k, 'e', ctx.get('style'))
         return rng.choice(['0', '1', '2', '3', '0.5', '1.25', '2.0', '0.1', '10'])
     sub = lambda: gen_expr(rng, depth - 1, ctx)  # noqa: E731
     if r < 0.62:
@@ -135,8 +146,11 @@ def gen_expr(rng, depth, ctx):
     if r < 0.76:
         f = rng.choice(['max', 'min'])
         return '%s(%s)' % (f, ', '.join(sub() for _ in range(rng.choice([2, 2, 3]))))
-    if r < 0.81:
+    if r < 0.79:
         return 'abs(%s)' % sub()
+    if r < 0.81:
+        # a namespaced function: outside the translated fragment (K is skipped, the recorded accesses are still judged)
+        return 'np.sqrt(abs(%s))' % sub()
     if r < 0.91:
         return '(%s if %s else %s)' % (sub(), gen_cond(rng, depth - 1, ctx), sub())
     if r < 0.96:
@@ -165,8 +179,9 @@ def gen_prog(rng):
     neq = rng.choice([1, 2, 2, 3])
     lhs_vars = rng.sample(ENDO, neq)
     nvars = lhs_vars + rng.sample(EXO, rng.randint(1, 3))
+    style = rng.choice([(), (), (), ('plus',), ('spaces',), ('plus', 'spaces')])
     for y in lhs_vars:
-        ctx = {'L': L, 'Ld': Ld, 'vars': nvars, 'reads': []}
+        ctx = {'L': L, 'Ld': Ld, 'vars': nvars, 'reads': [], 'style': style}
         k = 0
         if rng.random() < 0.1 and (L or Ld):
             k = rng.choice([x for x in range(-L, Ld + 1) if x != 0])
@@ -177,7 +192,12 @@ def gen_prog(rng):
             kk = -(L + 1) if rng.random() < 0.5 else Ld + 1
             if abs(kk) <= 3:
                 ctx['reads'].append([nm, kk])
-                rhs = '%s + %s' % (rhs, _term(nm, kk, kind))
+                rhs = '%s + %s' % (rhs, _term(nm, kk, kind, style))
+        u = rng.random()
+        if u < 0.12:
+            rhs = '(\n    %s\n)  # multi-line statement with a comment' % rhs
+        elif u < 0.2:
+            rhs = '%s  # trailing comment' % rhs
         p.lines.append('%s = %s' % (_term(y, k), rhs))
         p.eqs.append({'lhs': [y, k], 'reads': ctx['reads']})
     return p
@@ -222,7 +242,27 @@ def base_case(p, n, data, entry, t=0, **opts):
     o = dict(min_iter=0, max_iter=4, tol=lib.fhex(1e-10), offset=0, failures='ignore', errors='raise', catch_first_error=True)
     o.update(opts)
     return {'script': '\n'.join(p.lines), 'eqs': p.eqs, 'n': n, 'data': data, 'entry': entry, 't': t, 'opts': o,
-            'start': None, 'end': None, 'status0': ['-'] * n, 'iters0': [-1] * n, 'min_lags': 0, 'min_leads': 0}
+            'start': None, 'end': None, 'status0': ['-'] * n, 'iters0': [-1] * n, 'min_lags': 0, 'min_leads': 0,
+            'inst_lags': None, 'inst_leads': None}
+
+
+def with_instance_override(rng, c, L, Ld, n):
+    """model.lags / model.leads assigned by the user after construction: RAISED (guard and default range must follow the
+    instance attribute) or LOWERED below what the equations need (kept finding: the guard is switched off)"""
+    c = copy.deepcopy(c)
+    u = rng.random()
+    if u < 0.6 or (L == 0 and Ld == 0):
+        if rng.random() < 0.5:
+            c['inst_lags'] = L + 1
+        else:
+            c['inst_leads'] = Ld + 1
+        if (c['inst_lags'] if c['inst_lags'] is not None else L) + (c['inst_leads'] if c['inst_leads'] is not None else Ld) >= n:
+            return None          # no solvable period left: iter_periods' own defaults would fall outside the span
+    elif L > 0 and (Ld == 0 or rng.random() < 0.5):
+        c['inst_lags'] = L - 1
+    else:
+        c['inst_leads'] = Ld - 1
+    return c
 
 
 def cases_for_program(rng, p, tier, heavy=True):
@@ -283,6 +323,10 @@ def cases_for_program(rng, p, tier, heavy=True):
                 c2['status0'] = [rng.choice(['-', '.', 'F', 'E', 'S']) for _ in range(n)]
                 c2['iters0'] = [rng.randint(-1, 9) for _ in range(n)]
                 cases.append(c2)
+            elif u < 0.9:
+                c2 = with_instance_override(rng, c, L, Ld, n)
+                if c2 is not None:
+                    cases.append(c2)
         # (c) solve() for every start / end choice
         choices = [None] + list(range(n))
         pairs = list(itertools.product(choices, choices))
@@ -298,6 +342,8 @@ def cases_for_program(rng, p, tier, heavy=True):
                 c['opts']['offset'] = rng.choice([-1, 1])
             if heavy and rng.random() < 0.05:
                 c['opts']['min_iter'] = c['opts']['max_iter'] + 1
+            if heavy and rng.random() < 0.12:
+                c = with_instance_override(rng, c, L, Ld, n) or c
             cases.append(c)
         # (d) the Fortran engine (frame / rejection / feasibility clauses; conditionals are not Fortran)
         if heavy and n == lens[0] and ' if ' not in '\n'.join(p.lines):
@@ -323,9 +369,15 @@ def cases_for_program(rng, p, tier, heavy=True):
                     if rng.random() < 0.5:
                         c2['opts']['offset'] = rng.choice([-1, 1])
                     cases.append(c2)
+                elif u < 0.6:
+                    c2 = with_instance_override(rng, c, L, Ld, n)
+                    if c2 is not None:
+                        cases.append(c2)
             for a, b in [(None, None), (0, None), (None, n - 1)]:
                 c = base_case(p, n, data, 'solve', 0, max_iter=2, failures='ignore', errors='raise')
                 c['start'], c['end'], c['engine'] = a, b, 'fortran'
+                if a is None and b is None and rng.random() < 0.3:
+                    c = with_instance_override(rng, c, L, Ld, n) or c
                 cases.append(c)
             # FortranEngine._evaluate(t): every t in both spellings and one step beyond each end of the span
             for t in range(-n - 1, n + 1):
@@ -398,6 +450,22 @@ def fixed_cases():
     for t in (2, -2, 3, -1, 1):
         out.append(base_case(r, 4, d4, 'solve_t', t, max_iter=2))
     out.append(base_case(r, 4, d4, 'solve', 0))
+    # instance attribute set by the user: lowered (kept finding) and raised (guard and default range follow it)
+    for t in (0, -4, 1):
+        c = base_case(p, 4, data, 'solve_t', t, max_iter=3)
+        c['inst_lags'] = 0
+        out.append(c)
+    c = base_case(p, 4, data, 'solve', 0)
+    c['inst_lags'] = 0
+    out.append(c)
+    for t in (1, -3, 2, -2):
+        c = base_case(p, 4, data, 'solve_t', t, max_iter=3)
+        c['inst_lags'] = 2
+        out.append(c)
+    for key in ('inst_lags', 'inst_leads'):
+        c = base_case(p, 4, data, 'solve', 0)
+        c[key] = 2 if key == 'inst_lags' else 1
+        out.append(c)
     q = Prog()
     q.lines = ['Y = X[1] + Y[-1]']
     q.eqs = [{'lhs': ['Y', 0], 'reads': [['X', 1], ['Y', -1]]}]
@@ -449,6 +517,10 @@ def impl_fortran(case):
             m.__dict__['_' + nm][:] = [lib.unhex(x) for x in case['data'][nm]]
     m.__dict__['_status'][:] = case['status0']
     m.__dict__['_iterations'][:] = case['iters0']
+    if case.get('inst_lags') is not None:
+        m.lags = case['inst_lags']
+    if case.get('inst_leads') is not None:
+        m.leads = case['inst_leads']
     before = em.snapshot(m, names)
     o = case['opts']
     kw = dict(min_iter=o['min_iter'], max_iter=o['max_iter'], tol=lib.unhex(o['tol']), offset=o['offset'],
@@ -471,7 +543,7 @@ def impl_fortran(case):
         c = e.__cause__
         out = ['raise', type(e).__name__, type(c).__name__ if c is not None else None]
     idx = {nm: i for i, nm in enumerate(names)}
-    return {'engine': 'fortran', 'names': names, 'lags': int(m.lags), 'leads': int(m.leads),
+    return {'engine': 'fortran', 'names': names, 'lags': int(m.lags), 'leads': int(m.leads), 'class_lags': int(Model.LAGS), 'class_leads': int(Model.LEADS),
             'endo': [idx[x] for x in m.endogenous], 'check': [idx[x] for x in m.check], 'prog': None, 'out': out,
             'before': before, 'after': em.snapshot(m, names),
             'status': [str(x) for x in np.asarray(m.__dict__['_status'])], 'iters': [int(x) for x in np.asarray(m.__dict__['_iterations'])],
@@ -490,10 +562,11 @@ def impl(case):
     except Exception as e:       # the grammar only produces valid scripts: reported by the oracle
         return {'skip': 'build:' + type(e).__name__}
     names = list(Model.NAMES)
+    untranslatable = None
     try:
         prog = em.translate_code(Model.CODE, names)
-    except em.Unsupported as e:
-        return {'skip': 'untranslatable: ' + str(e)[:60]}
+    except em.Unsupported as e:      # outside the translated fragment: the real run is still recorded and judged, K is skipped
+        prog, untranslatable = None, str(e)[:60]
     n = case['n']
     span = ['p%d' % i for i in range(n)]
     Probe = em.make_probe(Model, names)
@@ -503,6 +576,10 @@ def impl(case):
             m.__dict__['_' + nm][:] = [lib.unhex(x) for x in case['data'][nm]]
     m.__dict__['_status'][:] = case['status0']
     m.__dict__['_iterations'][:] = case['iters0']
+    if case.get('inst_lags') is not None:
+        m.lags = case['inst_lags']
+    if case.get('inst_leads') is not None:
+        m.leads = case['inst_leads']
     st = {'log': [], 'events': [], 'passes': []}
     m.__dict__['_c04'] = st
     before = em.snapshot(m, names)
@@ -536,7 +613,7 @@ def impl(case):
         return [[a[0], idx[a[1]], a[2]] for a in log]
     passes = []
     table_all = []
-    needs_table = em.uses_table(prog)
+    needs_table = prog is not None and em.uses_table(prog)
     for j, rec in enumerate(st['passes'][:MAX_PASSES_TABLE]):
         tab = em.mirror_table(prog, rec['t'], rec['before']) if needs_table else []
         for e in tab:
@@ -550,7 +627,7 @@ def impl(case):
     return {
         'names': names, 'lags': int(m.lags), 'leads': int(m.leads), 'class_lags': int(Model.LAGS), 'class_leads': int(Model.LEADS),
         'endo': [idx[x] for x in m.endogenous], 'check': [idx[x] for x in m.check],
-        'prog': prog, 'out': out, 'before': before, 'after': em.snapshot(m, names),
+        'prog': prog, 'untranslatable': untranslatable, 'out': out, 'before': before, 'after': em.snapshot(m, names),
         'status': [str(x) for x in np.asarray(m.__dict__['_status'])], 'iters': [int(x) for x in np.asarray(m.__dict__['_iterations'])],
         'log': canon(st['log']), 'events': st['events'], 'passes': passes, 'npasses': len(st['passes']),
         'table_all': table_all, 'table_complete': (not needs_table) or len(st['passes']) <= MAX_PASSES_TABLE,
@@ -639,7 +716,7 @@ def fortran_upfront(case, obs):
     chk = [B[i][q] if (o['offset'] != 0 and i in obs['endo']) else B[i][p] for i in obs['check']]
     if o['errors'] == 'raise' and any(_nonfinite(x) for x in chk):
         return True
-    return not obs['lags'] <= p < n - obs['leads']
+    return not obs['class_lags'] <= p < n - obs['class_leads']
 
 
 def k_item_fortran(case, obs):
@@ -650,7 +727,7 @@ def k_item_fortran(case, obs):
         c_out = '(Raise (SolutionError %s))' % ('None' if out[2] is None else '(Some 99)')
     else:
         c_out = '(Raise %s)' % {'FortranEngineError': 'FortranEngineError'}.get(out[1], sc.EXN.get(out[1], 'OtherError'))
-    fm = '(FSolve.mkFmod %s %s %s)' % (lib.cZ(obs['lags']), lib.cZ(obs['leads']), lib.clist(lib.cZ(i + 1) for i in obs['endo']))
+    fm = '(FSolve.mkFmod %s %s %s)' % (lib.cZ(obs['class_lags']), lib.cZ(obs['class_leads']), lib.clist(lib.cZ(i + 1) for i in obs['endo']))
     return '(KF (mkF %s %s %s %s %s %s %s))' % (
         fm, _c_desc(obs), sc.c_opts(case['opts']), lib.cZ(case['t']),
         _c_state(obs['before'], case['status0'], case['iters0'], []),
@@ -668,8 +745,8 @@ def correspond(cases, obs, tag, tier):
             if c['entry'] == 'evaluate':
                 n_, t_ = c['n'], c['t']
                 p_ = _pos(t_, n_) if -n_ <= t_ < n_ else None
-                if p_ is None or not o['lags'] <= p_ < n_ - o['leads']:        # rejected by the index tests: no equations needed
-                    fm = '(FSolve.mkFmod %s %s %s)' % (lib.cZ(o['lags']), lib.cZ(o['leads']), lib.clist(lib.cZ(i + 1) for i in o['endo']))
+                if p_ is None or not o['class_lags'] <= p_ < n_ - o['class_leads']:        # rejected by the index tests: no equations needed
+                    fm = '(FSolve.mkFmod %s %s %s)' % (lib.cZ(o['class_lags']), lib.cZ(o['class_leads']), lib.clist(lib.cZ(i + 1) for i in o['endo']))
                     c_out = '(Ret tt)' if o['out'][0] == 'ret' else '(Raise %s)' % sc.EXN.get(o['out'][1], 'OtherError')
                     items.append('(KG (mkG %s %s %s %s %s))' % (
                         fm, lib.cZ(t_), _c_state(o['before'], c['status0'], c['iters0'], []),
@@ -679,6 +756,8 @@ def correspond(cases, obs, tag, tier):
             if fortran_upfront(c, o):
                 items.append('(K2 %s)' % k_item_fortran(c, o))
                 owner.append(i)
+            continue
+        if o.get('prog') is None:        # outside the translated fragment: oracle only
             continue
         its = k_items(c, o)
         if its is None:
@@ -701,6 +780,8 @@ def explain(case, obs):
             return 'Fortran engine, call reaches the compiled loop: oracle only (the equations are not translated for this engine)'
         body = k_item_fortran(case, obs)[4:-1]
         return lib.coq_eval('explain_C04', PREAMBLE2, 'let c := %s in (F_w_solve_t (f_fm c) (f_desc c) (f_opts c) (f_t c) (f_state c))' % body)[-2500:]
+    if obs.get('prog') is None:
+        return 'generated code outside the translated fragment (%s): oracle only' % obs.get('untranslatable')
     its = k_items(case, obs) or []
     out = []
     for it in its[-2:]:
@@ -731,11 +812,15 @@ def guard(case, obs):
     """guard class of kept finding #3 (offset copy before the pre-existing non-finite rejection): K is silent there"""
     if obs.get('skip') or case['entry'] == 'evaluate':
         return False
+    if obs.get('engine') != 'fortran' and (obs['lags'] < obs['class_lags'] or obs['leads'] < obs['class_leads']):
+        # third kept finding: instance attribute lowered below what the equations need (outside the hypothesis
+        # prog_lags <= lags d of every theorem: hyp_ok fails by construction)
+        return True
     if obs.get('engine') == 'fortran' and case['entry'] == 'solve_t' and case['opts']['offset'] != 0:
         # second kept finding: FortranEngine.solve_t copies the offset period before the compiled feasibility test
         n = case['n']
         p = _pos(case['t'], n)
-        if 0 <= p < n and 0 <= p + case['opts']['offset'] < n and not obs['lags'] <= p < n - obs['leads'] and obs['out'][0] == 'raise':
+        if 0 <= p < n and 0 <= p + case['opts']['offset'] < n and not obs['class_lags'] <= p < n - obs['class_leads'] and obs['out'][0] == 'raise':
             return True
     return case['opts']['offset'] != 0 and case['opts']['errors'] == 'raise' and obs['out'][0] == 'raise' \
         and obs['out'][1] == 'SolutionError' and not obs['events']
@@ -758,8 +843,21 @@ def oracle(case, obs):
     idx = {nm: i for i, nm in enumerate(names)}
     L, Ld = script_lags_leads(eqs)
     L, Ld = max(L, case.get('min_lags', 0)), max(Ld, case.get('min_leads', 0))
-    if (obs['lags'], obs['leads']) != (L, Ld):
-        bad('lags-leads', 'model.lags/leads = %s but the equations need %s' % ((obs['lags'], obs['leads']), (L, Ld)))
+    if (obs['class_lags'], obs['class_leads']) != (L, Ld):
+        bad('lags-leads', 'LAGS/LEADS = %s but the equations need %s' % ((obs['class_lags'], obs['class_leads']), (L, Ld)))
+    Lp, Ldp = L, Ld                                    # what the equations need
+    Li = case['inst_lags'] if case.get('inst_lags') is not None else L
+    Ldi = case['inst_leads'] if case.get('inst_leads') is not None else Ld
+    if (obs['lags'], obs['leads']) != (Li, Ldi):
+        bad('lags-leads', 'model.lags/leads = %s, expected %s' % ((obs['lags'], obs['leads']), (Li, Ldi)))
+    fortran_ = obs.get('engine') == 'fortran'
+    # the periods the property wants rejected are those without room for max(instance value, what the equations need);
+    # the compiled Fortran code only knows the class-level values, the Python engine only the instance-level ones
+    if fortran_:
+        L, Ld = Lp, Ldp
+    else:
+        L, Ld = max(Li, Lp), max(Ldi, Ldp)
+    lowered = (Li < Lp or Ldi < Ldp) and not fortran_
     lhs = {}
     reads = {}
     for e in eqs:
@@ -836,6 +934,13 @@ def oracle(case, obs):
             if out[:2] != ['raise', 'ValueError'] or not unchanged or obs['events']:
                 bad('min>max', 'min_iter > max_iter must raise ValueError and change nothing: got %s, unchanged=%s' % (out, unchanged))
             return fails
+        if lowered and not feasible and Li <= p < n - Ldi:
+            # the user lowered model.lags / model.leads below what the equations need: the guard follows the attribute
+            if not (out[:2] == ['raise', 'IndexError'] and unchanged):
+                bad('instance-lags-lowered|infeasible-period-served',
+                    'model.lags/leads lowered to %s on a model whose equations need %s: solve_t(%d) on a %d-period span is served (%s) instead of rejected'
+                    % ((Li, Ldi), (Lp, Ldp), t, n, out[:2]))
+            return fails
         if not feasible:
             off_in = o['offset'] != 0 and 0 <= p + o['offset'] < n
             ok_reject = out[:2] == ['raise', 'IndexError'] or (fortran and out[:2] == ['raise', 'FortranEngineError'])
@@ -894,8 +999,8 @@ def oracle(case, obs):
                 break
         return fails
     # ---- solve()
-    a = case['start'] if case['start'] is not None else L
-    b = case['end'] if case['end'] is not None else n - 1 - Ld
+    a = case['start'] if case['start'] is not None else Li        # iter_periods' defaults follow the instance attributes
+    b = case['end'] if case['end'] is not None else n - 1 - Ldi
     want = list(range(a, b + 1))
     unchanged = not changed and not st_changed
     if o['min_iter'] > o['max_iter']:
@@ -903,6 +1008,12 @@ def oracle(case, obs):
             bad('min>max', 'min_iter > max_iter must raise ValueError and change nothing')
         return fails
     infeasible = [q for q in want if not L <= q < n - Ld]
+    if lowered and any(Li <= q < n - Ldi for q in infeasible):
+        if not (out[:2] == ['raise', 'IndexError'] and unchanged):
+            bad('instance-lags-lowered|infeasible-period-served',
+                'model.lags/leads lowered to %s on a model whose equations need %s: solve(start=%s, end=%s) on a %d-period span visits position %d instead of rejecting it'
+                % ((Li, Ldi), (Lp, Ldp), case['start'], case['end'], n, [q for q in infeasible if Li <= q < n - Ldi][0]))
+        return fails
     if out[0] == 'ret':
         if out[2] != want:
             bad('solve-positions', 'solve(start=%s, end=%s) visited %s, expected %s' % (case['start'], case['end'], out[2], want))
@@ -949,6 +1060,10 @@ def bucket(case, obs):
         extra = '/neg' if case['t'] < 0 else '/pos'
         extra += '/infeasible' if not obs['lags'] <= p < case['n'] - obs['leads'] else ''
         extra += '/offset' if case['opts']['offset'] else ''
+    if case.get('inst_lags') is not None or case.get('inst_leads') is not None:
+        extra += '/inst-lowered' if (obs['lags'] < obs['class_lags'] or obs['leads'] < obs['class_leads']) else '/inst-raised'
+    if obs.get('untranslatable'):
+        extra += '/oracle-only'
     return '%s%s%s/%s' % ('fortran:' if obs.get('engine') == 'fortran' else '', case['entry'], extra, r)
 
 
@@ -960,7 +1075,7 @@ def shrink_candidates(case):
     if case['n'] > 1:
         # drop the last period when nothing refers to it
         pass
-    if len(case['eqs']) > 1:
+    if len(case['eqs']) > 1 and len(case['script'].split('\n')) == len(case['eqs']):
         lines = case['script'].split('\n')
         for i in range(len(lines)):
             c = copy.deepcopy(case)
